@@ -1,10 +1,10 @@
 package main
 
 import (
-	"go/token"
 	"fmt"
 	"go/ast"
 	"go/constant"
+	"go/token"
 	"go/types"
 	"net"
 	"sort"
@@ -40,6 +40,7 @@ func runC19(c *Ctx, tier string) {
 		c19Classify(c, r, lits)
 	}
 	c19Lints(c, r)
+	c19Arpa(c, r)
 	r.Finish()
 }
 
@@ -559,4 +560,58 @@ func parsesCIDROrPanics(h *ssa.Function) bool {
 		}
 	}
 	return true
+}
+
+// c19Arpa: the reverse-DNS lint judges names case-insensitively and hands the
+// decoded address to the same reserved-address test: in Execute (helpers newer
+// than the rules looked through) every zone-suffix test and every call of
+// lintReversedIPAddress takes the lower-cased name, and lintReversedIPAddress
+// ends in util.IsIANAReserved on the address it rebuilt.
+func c19Arpa(c *Ctx, r *Report) {
+	var reg *Reg
+	for _, x := range BuildCensus(c).Regs {
+		if x.NameOK && x.Name == "e_subject_contains_reserved_arpa_ip" {
+			reg = x
+		}
+	}
+	if reg == nil || reg.Err != "" {
+		fault("unresolved anchor: lint e_subject_contains_reserved_arpa_ip")
+	}
+	nSuffix, nCalls := 0, 0
+	bad := ""
+	allInstrsDeep(reg.Execute, func(in ssa.Instruction) {
+		call, ok := in.(*ssa.Call)
+		if !ok {
+			return
+		}
+		switch staticCalleeName(&call.Call) {
+		case "strings.HasSuffix":
+			if p := apath(call.Call.Args[1]); strings.Contains(p, "arpa") || strings.Contains(p, "rdnsIP") {
+				nSuffix++
+				if a := apath(call.Call.Args[0]); !strings.HasPrefix(a, "strings.ToLower(") {
+					bad = "the zone suffix is tested on " + a + ", not on the lower-cased name: IN-ADDR.ARPA / IP6.Arpa spellings escape the lint"
+				}
+			}
+		case "lints/cabf_br.lintReversedIPAddress":
+			nCalls++
+			if a := apath(call.Call.Args[0]); !strings.HasPrefix(a, "strings.ToLower(") {
+				bad = "lintReversedIPAddress is given " + a + ", not the lower-cased name: the zone suffix is then not stripped for upper-case spellings and the address is never tested"
+			}
+		}
+	})
+	if bad == "" && (nSuffix < 2 || nCalls < 2) {
+		bad = fmt.Sprintf("only %d suffix tests and %d calls of lintReversedIPAddress found in Execute", nSuffix, nCalls)
+	}
+	r.Check(bad == "", "lint-reports", "e_subject_contains_reserved_arpa_ip|case", reg.Execute.Pos(), "zone tests and address extraction use the lower-cased name", bad)
+	lr := c.FuncMaybe("lints/cabf_br", "lintReversedIPAddress")
+	if lr == nil {
+		fault("unresolved anchor: cabf_br.lintReversedIPAddress")
+	}
+	ends := false
+	allInstrsDeep(lr, func(in ssa.Instruction) {
+		if call, ok := in.(*ssa.Call); ok && staticCalleeName(&call.Call) == "util.IsIANAReserved" {
+			ends = true
+		}
+	})
+	r.Check(ends, "lint-reports", "e_subject_contains_reserved_arpa_ip|test", lr.Pos(), "rebuilt address tested by util.IsIANAReserved", "lintReversedIPAddress no longer tests the rebuilt address with util.IsIANAReserved")
 }
